@@ -100,17 +100,22 @@ def sweep_docs(fmt, quick):
     for L in Ls:
         plain = bytes(97 + (j % 26) for j in range(L))
         if fmt == "json":
-            fl = [plain]
-            if L >= 2:
-                fl += [b"\\n" + plain[2:], plain[:-2] + b"\\t", plain[:-2] + "é".encode()]
-            if L >= 1:
-                fl += [plain[:-1] + b"\xff"]
-            if L >= 6:
-                fl += [plain[:-6] + b"\\u00e9"]
-            for t in fl:
+            def flavours(plain):
+                fl = [plain]
+                if L >= 2:
+                    fl += [b"\\n" + plain[2:], plain[:-2] + b"\\t", plain[:-2] + "é".encode()]
+                if L >= 1:
+                    fl += [plain[:-1] + b"\xff"]
+                if L >= 6:
+                    fl += [plain[:-6] + b"\\u00e9"]
+                return fl
+            # the second text of a document differs from the first (a buffer shared by both would show)
+            for t, t2 in zip(flavours(plain), flavours(bytes(65 + (j % 26) for j in range(L)))):
                 docs.append(list(b'"' + t + b'"'))
                 docs.append(list(b'{"' + t + b'":1}'))
-                docs.append(list(b'[{"k":"' + t + b'","' + t + b'":null}]'))
+                docs.append(list(b'[{"k":"' + t + b'","' + t2 + b'":null}]'))
+                if L >= 40:
+                    docs.append(list(b'["' + t + b'","' + t2[: L // 2] + b'",{"' + t2 + b'":"' + t[2:] + b'"}]'))
         elif fmt == "cborl":
             def head(major, n):
                 if n < 24:
@@ -438,10 +443,29 @@ def c02(ctx):
         for L in (62, 63, 64, 65, 66, 130):
             extra.append(enc_doc(fmt, {"k" * L: "v" * L}))
             extra.append(enc_doc(fmt, ["e\\n" + "s" * L, "t" * L]))
+        # adjacent tokens: whatever state a token leaves behind at a cut meets every kind of next token
+        if fmt == "json":
+            toks = [b'""', b'"a"', b'"\\n"', b'"a\\\\"', b'"\\"q"', b'"\\u00e9"', "\"é\"".encode(), b'"\\\\\\""']
+            vals = [b"1", b'"v"', b"-2.5e1", b"true", b"[]"]
+            for i, k1 in enumerate(toks):
+                for j, k2 in enumerate(toks):
+                    v1, v2 = vals[(i + j) % 5], vals[(i + 2 * j + 1) % 5]
+                    extra.append(list(b"{" + k1 + b":" + v1 + b"," + k2 + b":" + v2 + b"}"))
+                    extra.append(list(b"[" + k1 + b"," + k2 + b"," + v1 + b"]"))
+                    if (i + j) % 3 == 0:
+                        extra.append(list(b"[" + v1 + b"," + k1 + b",{" + k2 + b":" + k1 + b"}]"))
+        else:
+            ks = ["", "a", "ab", "é"]
+            vs = ["", "x", "yz", [], {}, ["q"]]
+            for i, k1 in enumerate(ks):
+                for j, k2 in enumerate(ks):
+                    if k1 != k2:
+                        extra.append(enc_doc(fmt, {k1: vs[(i + j) % 6], k2: vs[(i + 2 * j + 1) % 6]}))
+                    extra.append(enc_doc(fmt, [k1, k2, {k2: k1}]))
         for doc in extra:
             n = len(doc)
-            cl = [[i] for i in range(1, n)] + [sorted(rnd.sample(range(1, n), 2)) for _ in range(150 if ctx.quick else 800)]
-            cl += [sorted(rnd.sample(range(1, n), rnd.randint(3, 9))) for _ in range(40 if ctx.quick else 200)] + [list(range(1, n))]
+            cl = [[i] for i in range(1, n)] + [sorted(rnd.sample(range(1, n), 2)) for _ in range(150 if ctx.quick else 800) if n > 2]
+            cl += [sorted(rnd.sample(range(1, n), min(n - 1, rnd.randint(3, 9)))) for _ in range(40 if ctx.quick else 200)] + [list(range(1, n))]
             cases.append(case("C02", "sched", fmt, doc=doc, sub=dict(mode="list", cutlists=cl, entries=entries), origin="boundary length / deep nesting"))
             nsched += len(cl) * len(entries) + 1
     number(cases)
@@ -451,7 +475,9 @@ def c02(ctx):
         ctx, "TraceCodec", cases, tf, failed, n, level_note="",
         rule="documents come from the TLC language generators (valid ones with multi-byte tokens first, plus invalid/unsupported/"
              "truncated ones); for documents up to %d bytes EVERY subset of cut positions is run (exhaustive), longer ones with all "
-             "single cuts, double cuts and seeded random cut sets; each schedule is run through Write*+end, Write* with empty writes "
+             "single cuts, double cuts and seeded random cut sets (among them: strings/member names around the internal buffer sizes, "
+             "marker-valued lengths, deep nesting, and every ordered pair of adjacent string/name tokens from an alphabet of empty, plain, "
+             "escaped and multi-byte texts); each schedule is run through Write*+end, Write* with empty writes "
              "interleaved, and ParseReader with short reads (with and without data+EOF) on a fresh parser and compared with the "
              "whole-buffer Parse. Distinct = distinct documents; non-trivial = at least 4 bytes." % maxall,
         nontrivial=lambda c: len(c["doc"]) >= 4,
@@ -569,9 +595,9 @@ def c10(ctx):
     n = 0
     for shape in shapes:
         for st in streams.fills(shape, 1 if ctx.quick else 3, rnd):
-            for cons in ("json", "ubjson", "cborl", "plain"):
+            for cons in ("json", "ubjson", "cborl", "plain", "unfold"):
                 opts = dict(ALL_OPTS[n % 8]) if cons == "json" else dict(OPTS0)
-                cases.append(case("C10", "extcmp", cons if cons != "plain" else "json", stream=st, opts=opts, sub=dict(consumer=cons), origin="GenEvents"))
+                cases.append(case("C10", "extcmp", cons if cons not in ("plain", "unfold") else "json", stream=st, opts=opts, sub=dict(consumer=cons), origin="GenEvents"))
                 n += 1
     number(cases)
     tf, st = core.run_harness(ctx, cases)
@@ -581,11 +607,11 @@ def c10(ctx):
         rule="TLC-enumerated two-document streams (GenEvents, MaxDocs=2) that contain an extended array/map event (all 29 kinds, 0/1/2 "
              "elements) or a by-reference string/key at every structural position (top level, first/middle/last element or member, "
              "nested, announced and unknown lengths), followed by further events and a second document; each consumer (3 real encoders, "
-             "and a plain Visitor behind EnsureExtVisitor) is driven with the extended call and with its expansion; TraceCodec checks "
+             "a plain Visitor behind EnsureExtVisitor, and the gotype Unfolder with interface{} targets) is driven with the extended call and with its expansion; TraceCodec checks "
              "that the driver's expansion is SFEvents!ExpandAll, that both outputs decode (reference automaton) to the stream's value, "
              "and that the depth accessors agree. Distinct = distinct (stream, consumer); non-trivial = more than one event.",
         nontrivial=lambda c: len(c["stream"]) > 1,
-        assumptions=TCB + ["the unfolder as a consumer of extended events is covered by C13's streams, not here"])
+        assumptions=TCB + ["the unfolder is driven with interface{} targets here; typed targets are covered by C13's streams"])
 
 
 # ---------------------------------------------------------------- C16
@@ -804,6 +830,12 @@ def c17(ctx):
                             kw = dict(buf=rnd.choice([1, 2, 3, 7, 64]), plan=[rnd.randint(1, 5) for _ in range(rnd.randint(0, 12))], eofwith=rnd.random() < 0.5)
                         cases.append(case("C17", "reuse", fmt, doc=sep(docs[pi], comp), sub=dict(component=comp, mode=mode, history=hd),
                                           origin="%s/%s history %s" % (comp, mode, hist), **kw))
+        # ---- every complete document of the generator once as history and probe (idle depths after ANY document)
+        allrows = [r["doc"] for r in GENS[fmt](ctx, "lang", quick=True) if r["class"] == "complete" and 2 <= len(r["doc"]) <= 40]
+        rnd.shuffle(allrows)
+        for n, d in enumerate(allrows[: 6000 if ctx.quick else 60000]):
+            comp, mode = (("parser", "parse"), ("parser", "write"), ("dec", "bytes"))[n % 3]
+            cases.append(case("C17", "reuse", fmt, doc=sep(d, comp), sub=dict(component=comp, mode=mode, history=[sep(d, comp)]), origin="%s/%s every document twice" % (comp, mode)))
     # ---- iterator and unfolder: histories of TLC-enumerated Go programs (shared types: first use vs cached use of a type)
     rows = [r for r in gen_gotypes(ctx, quick=True) if r["T"]["k"] in ("struct", "slice", "map", "ptr", "iface")]
     rnd.shuffle(rows)
@@ -865,7 +897,8 @@ def c17(ctx):
              "of maps whose member names recur beyond the cache capacity 0-5); (codecs) ALL histories of up to %d documents over an alphabet of %d shapes per component (chosen with pairwise different signatures "
              "from the TLC generators: scalars, strings, empty/nested containers, known/unknown lengths, typed containers, every family "
              "of extended events) followed by every probe from the same alphabet (quick: half of the longest histories, seeded), for the "
-             "3 encoders, the 3 parsers (Parse per document and Write+end) and the 3 pull decoders (byte slice and scripted reader); "
+             "3 encoders, the 3 parsers (Parse per document and Write+end) and the 3 pull decoders (byte slice and scripted reader); in "
+             "addition EVERY complete document of the quick language generators (<= 40 bytes) once as history and probe of a parser/decoder; "
              "TraceCodec!ReuseVerdict compares the probe on the reused instance with a fresh instance and the depth accessors after "
              "every document with a new instance's. Distinct = distinct (component, history, probe); non-trivial = history not empty."
              % (H, A),
@@ -1094,7 +1127,7 @@ def c20(ctx):
         combos = [("json", "ifc"), ("cborl", "int"), ("ubjson", "struct"), ("json", "struct"), ("cborl", "ifc"), ("ubjson", "int"),
                   ("json", "int"), ("cborl", "struct"), ("ubjson", "ifc")]
         for fmt, target in ([combos[n % 9]] if ctx.quick else [combos[n % 9], combos[(n + 4) % 9], combos[(n + 7) % 9]]):
-            cases.append(case("C20", "keycache", fmt, sub=dict(cap=r["cap"], hist=r["hist"], target=target, model_lru=r["lru"]), origin="SFKeyCache"))
+            cases.append(case("C20", "keycache", fmt, sub=dict(cap=r["cap"], hist=r["hist"], target=target, model_lru=r["lru"], sharedbuf=(n // 9) % 2 == 1), origin="SFKeyCache"))
     number(cases)
     tf, st = core.run_harness(ctx, cases)
     failed, nv = core.tlc_validate(ctx, "TraceCodec", tf)
@@ -1111,11 +1144,11 @@ def c20(ctx):
                     drift += 1
     return run.decide(
         ctx, "TraceCodec", cases, tf, failed, nv, level_note="", exhaustive=True,
-        rule="TLC walks the LRU model SFKeyCache: EVERY access history up to MaxLen over 4 keys (incl. the empty key and keys sharing a "
+        rule="TLC walks the LRU model SFKeyCache: EVERY access history up to MaxLen over 4 keys (the empty key, two keys of equal length, keys sharing a "
              "prefix) x EVERY capacity 0..MaxCap, split into up to 3 documents, checking on every state that the LRU refines the "
              "cache-less lookup; each history is replayed on the real unfolder (keys delivered by reference by the JSON/UBJSON/CBOR "
              "parser into map[string]interface{}, map[string]int and map[string]struct targets) with the cache enabled and disabled, the "
-             "source bytes being overwritten after every document; TraceCodec!KeyCacheVerdict requires identical results and intact keys. "
+             "source bytes being overwritten after every document (every other history: all documents read into one reused input buffer); TraceCodec!KeyCacheVerdict requires identical results and intact keys. "
              "Distinct = distinct (capacity, history, format, target); non-trivial = at least one repeated key.",
         nontrivial=lambda c: len(set(c["sub"]["hist"])) < len(c["sub"]["hist"]),
         extra_cov=dict(lru_order_drift_vs_model=drift),
@@ -1123,7 +1156,7 @@ def c20(ctx):
 
 
 def gotypes_key(idx):
-    return [b"", b"a", b"ab", b"abc", b"b", "k\u00e9y".encode()][idx - 1]
+    return [b"", b"a", b"b", b"ab", b"abc", "k\u00e9y".encode()][idx - 1]
 
 
 def c14(ctx):
